@@ -135,8 +135,12 @@ func (b *w5Broker) Unsubscribe(ch ...string) error { return nil }
 func (b *w5Broker) Publish(ch string, data []byte, opts PublishOptions) (PublishResult, error) {
 	return b.sh.inner.Publish(ch, data, opts)
 }
-func (b *w5Broker) PublishJoin(ch string, info *ClientInfo) error  { return b.sh.inner.PublishJoin(ch, info) }
-func (b *w5Broker) PublishLeave(ch string, info *ClientInfo) error { return b.sh.inner.PublishLeave(ch, info) }
+func (b *w5Broker) PublishJoin(ch string, info *ClientInfo) error {
+	return b.sh.inner.PublishJoin(ch, info)
+}
+func (b *w5Broker) PublishLeave(ch string, info *ClientInfo) error {
+	return b.sh.inner.PublishLeave(ch, info)
+}
 func (b *w5Broker) History(ch string, opts HistoryOptions) ([]*Publication, StreamPosition, error) {
 	return b.sh.inner.History(ch, opts)
 }
@@ -155,9 +159,9 @@ type w5Script struct {
 	Mode   string `json:"mode"` // "op" (C27/C28) or "survey" (C41)
 	Nodes  int    `json:"nodes"`
 	Proto  string `json:"proto"`
-	Op     string `json:"op"`     // subscribe unsubscribe disconnect refresh unsubscribe_all
-	Opt    string `json:"opt"`    // focal option
-	Target string `json:"target"` // user client labels allusers
+	Op     string `json:"op"`      // subscribe unsubscribe disconnect refresh unsubscribe_all
+	Opt    string `json:"opt"`     // focal option
+	Target string `json:"target"`  // user client labels allusers
 	PreSub int    `json:"pre_sub"` // channels both connections are subscribed to before the op
 	Hist   int    `json:"history"` // publications in the channel history before the op
 	CSR    bool   `json:"client_side_refresh"`
